@@ -3,6 +3,7 @@ package governance
 import (
 	"errors"
 	"fmt"
+	"slices"
 	"sort"
 
 	"github.com/nspcc-dev/neo-go/pkg/crypto/keys"
@@ -24,6 +25,7 @@ var (
 func newAlphabetList(fsChain, mainnet keys.PublicKeys) (keys.PublicKeys, error) {
 	sort.Sort(fsChain)
 	sort.Sort(mainnet)
+	mainnet = slices.CompactFunc(mainnet, (*keys.PublicKey).Equal)
 
 	ln := len(fsChain)
 	if ln == 0 {
